@@ -368,7 +368,7 @@ class Inotify:
                             for _path in self._wd_for_path.copy():
                                 if _path.startswith(move_src_path + os.path.sep.encode()):
                                     moved_wd = self._wd_for_path.pop(_path)
-                                    _move_to_path = _path.replace(move_src_path, inotify_event.src_path)
+                                    _move_to_path = inotify_event.src_path + _path[len(move_src_path) :]
                                     self._wd_for_path[_move_to_path] = moved_wd
                                     self._path_for_wd[moved_wd] = _move_to_path
                     src_path = os.path.join(wd_path, name)
